@@ -8,8 +8,10 @@
 // (its pattern needs ~100 ms on a 400 kB line; no source hook is used).
 //
 // Each version v of the program does, for a line "<n> <body>" that matches,
-//     last = n          (gauge)
-//     seen[n][v]++      (the per-line log: which version processed line n, and when)
+//
+//	last = n          (gauge)
+//	seen[n][v]++      (the per-line log: which version processed line n, and when)
+//
 // Observed: the final value of the gauge, for every line the versions that
 // processed it and the time stamp of that effect (read from every metric
 // object the versions ever held, as a reload detaches the old version's).
@@ -59,22 +61,27 @@ func source(ver int, slow, strp, refuse bool) string {
 	if refuse {
 		decl, rule = "counter clash\n", "/clash/ {\n  clash++\n}\n"
 	}
-	return fmt.Sprintf("%sgauge last\ncounter seen by n, ver\n%s {\n%s  last = $n\n  seen[$n][\"%d\"]++\n}\n%s", decl, pat, stmt, ver, rule)
+	// junk lines ("xN junk") match no rule that has an effect, but make an
+	// instruction PANIC inside the vm (++ on a histogram; recovered, a runtime
+	// error): whatever such a line leaves behind in the vm must not cost the next
+	// line its processing
+	panicRule := "histogram hp buckets 1, 2\n/^x\\d+ junk/ {\n  hp++\n}\n"
+	return fmt.Sprintf("%sgauge last\ncounter seen by n, ver\n%s%s {\n%s  last = $n\n  seen[$n][\"%d\"]++\n}\n%s", decl, panicRule, pat, stmt, ver, rule)
 }
 
 const otherName = "other.mtail"
 const otherSource = "gauge clash\n/clash (\\d+)/ {\n  clash = $1\n}\n"
 
 type Action struct {
-	K    string `json:"k"`              // send | reload
-	N    int    `json:"n,omitempty"`    // send: line number
-	Body int    `json:"body,omitempty"` // send: 0 junk (matches nothing), 1 short, 2 medium (~40 kB), 3 large (~400 kB), 4 calibrated (Size bytes)
-	Size int    `json:"size,omitempty"` // body 4: length of the line, calibrated so that the slow pattern needs Secs seconds
-	Secs float64 `json:"secs,omitempty"` // body 4: the target duration
-	Ver  int    `json:"ver,omitempty"`  // reload: new version
-	Slow bool   `json:"slow,omitempty"` // reload: the new version carries the slow pattern
-	Sync bool   `json:"sync,omitempty"` // wait for the fan-out loop to be idle first
-	Refuse bool `json:"refuse,omitempty"` // reload: the version compiles but the store refuses one of its metrics; the old version must keep running
+	K      string  `json:"k"`                // send | reload
+	N      int     `json:"n,omitempty"`      // send: line number
+	Body   int     `json:"body,omitempty"`   // send: 0 junk (matches nothing), 1 short, 2 medium (~40 kB), 3 large (~400 kB), 4 calibrated (Size bytes)
+	Size   int     `json:"size,omitempty"`   // body 4: length of the line, calibrated so that the slow pattern needs Secs seconds
+	Secs   float64 `json:"secs,omitempty"`   // body 4: the target duration
+	Ver    int     `json:"ver,omitempty"`    // reload: new version
+	Slow   bool    `json:"slow,omitempty"`   // reload: the new version carries the slow pattern
+	Sync   bool    `json:"sync,omitempty"`   // wait for the fan-out loop to be idle first
+	Refuse bool    `json:"refuse,omitempty"` // reload: the version compiles but the store refuses one of its metrics; the old version must keep running
 }
 
 type Effect struct {
@@ -85,17 +92,17 @@ type Effect struct {
 }
 
 type Case struct {
-	Kind     string   `json:"kind"`
-	Slow0    bool     `json:"slow0"` // version 1 carries the slow pattern
-	Strp     bool     `json:"strp,omitempty"`  // lines carry a time stamp and every version parses it with strptime (effect stamps are then the lines' times, not processing times)
-	Other    bool     `json:"other,omitempty"` // a second program is loaded (needed for refused reloads)
-	BadReload string  `json:"bad_reload,omitempty"`
-	Actions  []Action `json:"actions"`
-	Effects  []Effect `json:"effects"` // sorted by stamp
-	Gauge    int64    `json:"gauge"`
-	Events   []string `json:"events"` // reconstructed schedule (Coq terms)
-	Stuck    bool     `json:"stuck,omitempty"`
-	reloadAt []int64  // stamp after each reload returned
+	Kind      string   `json:"kind"`
+	Slow0     bool     `json:"slow0"`           // version 1 carries the slow pattern
+	Strp      bool     `json:"strp,omitempty"`  // lines carry a time stamp and every version parses it with strptime (effect stamps are then the lines' times, not processing times)
+	Other     bool     `json:"other,omitempty"` // a second program is loaded (needed for refused reloads)
+	BadReload string   `json:"bad_reload,omitempty"`
+	Actions   []Action `json:"actions"`
+	Effects   []Effect `json:"effects"` // sorted by stamp
+	Gauge     int64    `json:"gauge"`
+	Events    []string `json:"events"` // reconstructed schedule (Coq terms)
+	Stuck     bool     `json:"stuck,omitempty"`
+	reloadAt  []int64  // stamp after each reload returned
 }
 
 func stamped(strp bool, n int, s string) string {
